@@ -86,6 +86,8 @@ def c01_cases():
                 for dd in range(3):
                   for mm in c01_mm_values(pre, op):
                     tier = "quick" if ((pre, op) in quick and c01_quick_pick(kn, pre, op, dd, mm)) else ("thorough" if c01_cost_class(kn, pre, op, dd, mm) == "cheap" else "full")
+                    if tier == "thorough" and kn in ("dm", "um") and dd != (pre + op) % 3:
+                        tier = "full"   # multi-edge kinds ignore the dedupe strategy: one strategy per cell in the thorough tier
                     name = "c01_step_%s_p%d_o%02d_d%d_m%d" % (kn, pre, op, dd, mm)
                     call = "c01_step(%s, %s, %d, %d, %d, %d)" % (B[d], B[m], pre, op, dd, mm)
                     if mm == 1 or (c01_is_dup(kn, pre, op) and dd == 0 and kn in ("ds", "us")):
@@ -150,7 +152,7 @@ def c03_cases():
 def c02_admissible(d, m, s):
     if s == 2 and not m:
         return False
-    if s == 3 and not d and not m:
+    if s in (3, 6) and not d and not m:
         return False
     return True
 
@@ -166,18 +168,18 @@ C02_GROUPS = [
 def c02_cases():
     out = []
     quick = {("pairs", 1), ("pairs", 2), ("pairs", 3), ("nodeedges", 1), ("nodeedges", 2), ("setedges", 5), ("neigh", 1), ("neigh", 5),
-             ("nodes", 0), ("nodes", 5), ("build", 1), ("build", 2), ("build", 5), ("build", 0)}
+             ("nodes", 0), ("nodes", 5), ("build", 1), ("build", 2), ("build", 5), ("build", 0), ("neigh", 6), ("nodeedges", 6)}
     for (kn, d, m) in KINDS:
-        for s in range(6):
+        for s in range(7):
             if not c02_admissible(d, m, s):
                 continue
             for (gname, fn, covers, what) in C02_GROUPS:
                 tier = "quick" if (gname, s) in quick else "thorough"
-                if gname == "build" and kn in ("ds", "us") and len({0: 2, 1: 2, 2: 3, 3: 2, 4: 0, 5: 3}[s] * [0]) >= 3:
+                if gname == "build" and kn in ("ds", "us") and len({0: 2, 1: 2, 2: 3, 3: 2, 4: 0, 5: 3, 6: 3}[s] * [0]) >= 3:
                     tier = "full"     # three real add_edge calls on a single-edge kind: measured > 24 GB
                 if gname == "build" and kn == "us" and tier == "quick" and s != 1:
                     tier = "thorough"
-                if gname == "neigh" and s == 5 and kn != "ds":
+                if gname == "neigh" and s in (5, 6) and kn not in ("dm",):
                     tier = "thorough" if tier == "quick" else tier
                 name = "c02_%s_%s_s%d" % (gname, kn, s)
                 call = "%s(%s, %s, %d)" % (fn, B[d], B[m], s)
@@ -190,6 +192,10 @@ def c02_cases():
 
 def c09_cases():
     out = []
+    for (kn, d, m) in KINDS:
+        for s in range(3):
+            out.append(("c09_small_%s_s%d" % (kn, s), "c09_small(%s, %s, %d)" % (B[d], B[m], s), "quick" if kn in ("ds", "um") else "thorough", ["reached end"],
+                        "kind=%s two-node graph #%d (edge / edgeless / self-loop): degree_centrality = degree/(n-1), density, degrees with n = 2" % (kn, s)))
     for (kn, d, m) in KINDS:
         for s in range(6):
             if not c02_admissible(d, m, s):
@@ -210,7 +216,7 @@ def c10_cases():
         # measured: undirected graphs with >= 2 non-loop edges run into the 25-minute cap (get_neighbor_nodes'
         # itertools sort/dedup pipeline under BFS); they are kept in the 'full' tier
         nonloop = bin(mask & 0b0111).count("1")
-        out.append(("c10_und_m%02d" % mask, "c10_undirected(%d, false)" % mask, ("quick" if nonloop <= 1 else "full"), [],
+        out.append(("c10_und_m%02d" % mask, "c10_undirected(%d, false)" % mask, ("quick" if nonloop <= 1 and mask not in (0b1010, 0b1100) else "full"), [],
                     "undirected single-edge graph on nodes [2,0,1], topology mask %s: connected_components / number_of_ / node_connected_component vs closure oracle; WrongMethod guards" % format(mask, "04b")))
     for mask in (0b0011, 0b1111, 0b0101):
         out.append(("c10_undmulti_m%02d" % mask, "c10_undirected(%d, true)" % mask, "full", [], "same on the multi-edge kind, mask %s" % format(mask, "04b")))
@@ -287,22 +293,28 @@ def c08_cases():
     return out
 
 def c11_cases():
+    """Measured: the undirected functions (all built on get_neighbor_nodes' itertools sort/dedup pipeline)
+    exceed 25 minutes as soon as the graph has two non-loop edges; those topologies are 'full' tier."""
     out = []
-    # undirected masks over [(2,0),(0,1),(1,2),(1,1)]; subset 0 = all nodes
     for mask in range(16):
+        nonloop = bin(mask & 0b0111).count("1")
+        cheap = nonloop <= 1 and mask not in (0b1010, 0b1100)
         for subset in (0, 1, 2, 3, 4):
             if subset in (2, 3) and mask not in (0b0111, 0b0011, 0b1111):
                 continue
-            q = (mask, subset) in {(0b0111, 0), (0b0011, 0), (0b1111, 0), (0b0001, 0), (0b0111, 1), (0b0011, 4), (0b0000, 0), (0b1011, 0)}
-            out.append(("c11_und_m%02d_x%d" % (mask, subset), "c11_undirected(%d, %d)" % (mask, subset), "quick" if q else "thorough", ["reached end"],
+            if cheap:
+                tier = "quick" if subset in (0, 4) else "thorough"
+            else:
+                tier = "full"
+            out.append(("c11_und_m%02d_x%d" % (mask, subset), "c11_undirected(%d, %d)" % (mask, subset), tier, ["reached end"],
                         "undirected topology mask %s, node subset #%d: triangles, clustering, generalized_degree, average_clustering, transitivity, square_clustering vs brute-force oracles" % (format(mask, "04b"), subset)))
-    for mask in (0b0000111, 0b0001011, 0b0111111, 0b1000111, 0b0010101, 0b0000001, 0b0011011, 0b0000000):
+    for mask in (0b0000111, 0b0001011, 0b0111111, 0b1000111, 0b0010101, 0b0000001, 0b0011011, 0b0000000, 0b0001001, 0b0011111):
         for subset in (0, 1, 2):
-            q = (mask, subset) in {(0b0000111, 0), (0b0111111, 0), (0b0001011, 1), (0b0011011, 2)}
+            q = (mask, subset) in {(0b0000111, 0), (0b0001011, 1), (0b0011011, 2), (0b0001001, 0), (0b0011011, 0), (0b1000111, 0)}
             out.append(("c11_dir_m%03d_x%d" % (mask, subset), "c11_directed(%d, %d)" % (mask, subset), "quick" if q else "thorough", ["reached end"],
                         "directed topology mask %s, node subset #%d: clustering vs Fagiolo's formula; WrongMethod for the undirected-only functions" % (format(mask, "07b"), subset)))
-    out.append(("c11_multi_refused_u", "c11_multi_refused(false)", "quick", ["reached end"], "undirected multi-edge graph: every cluster function returns WrongMethod"))
-    out.append(("c11_multi_refused_d", "c11_multi_refused(true)", "thorough", ["reached end"], "directed multi-edge graph: clustering returns WrongMethod"))
+    out.append(("c11_multi_refused_u", "c11_multi_refused(false)", "full", ["reached end"], "undirected multi-edge graph: every cluster function returns WrongMethod"))
+    out.append(("c11_multi_refused_d", "c11_multi_refused(true)", "quick", ["reached end"], "directed multi-edge graph: clustering returns WrongMethod"))
     return out
 
 def c05_cases():
